@@ -57,8 +57,10 @@ def formulas(T, R):
     a, b, c = f'A1:A{R}', f'B1:B{R}', f'C1:C{R}'
     return [f'=SUMIF({a},{T})', f'=SUMIF({a},{T},{b})', f'=SUMIFS({b},{a},{T})', f'=COUNTIFS({a},{T})', f'=AVERAGEIFS({b},{a},{T})',
             f'=SUMIFS({b},{a},{T},{c},">1")', f'=COUNTIFS({a},{T},{c},">1")', f'=SUMIFS({b},{c},">1",{a},{T})', f'=AVERAGEIFS({b},{c},">1",{a},{T})',
-            f'=SUMIFS(B1:B{R - 1},{a},{T})', f'=COUNTIFS({a},{T},C1:C{R - 1},">1")', f'=AVERAGEIFS({b},{a},{T},C1:C{R + 1},">1")']
-NF = 12
+            f'=SUMIFS(B1:B{R - 1},{a},{T})', f'=COUNTIFS({a},{T},C1:C{R - 1},">1")', f'=AVERAGEIFS({b},{a},{T},C1:C{R + 1},">1")',
+            # same number of rows but more columns: still a different size
+            f'=SUMIFS(B1:C{R},{a},{T})', f'=AVERAGEIFS(B1:C{R},{a},{T})', f'=COUNTIFS({a},{T},B1:C{R},">1")']
+NF = 15
 
 
 def target(i):
@@ -79,7 +81,7 @@ def expected(rec, R):
     else:
         s12 = sum(target(i - 1) for i in sel12)
         out += [s12, len(sel12), s12, (s12 / len(sel12)) if sel12 else 'ERR']
-    out += ['ERR', 'ERR', 'ERR']
+    out += ['ERR', 'ERR', 'ERR', 'ERR', 'ERR', 'ERR']
     return out
 
 
